@@ -17,6 +17,18 @@ Correspondence stream `c07` (engine `Engines/C07.lean`, model `Model/Parts.lean`
             every leaf and the joint replay of `result.model_spec`. All of it must equal the
             implementation's observables.
 * `badname` malformed stream: one part names a column that does not exist.
+* `hist`    multi-step histories (model `Model/PartsHist.lean`, engine op `hist`): one or two structured builds, then a
+            structure COMPOSED from their parts (attached specs or built matrices) and fresh, never materialized parts
+            (before / after / between, in place or in a new container), built again through
+            `ModelSpecs.get_model_matrix` / `model_matrix` / a materializer with and without a caller drop set. The
+            model resolves the references in ITS earlier results, decides joint vs per-spec generation itself, runs the
+            encoders lazily behind the materializer's two caches, and predicts trees, rows, values, recorded structure,
+            transform AND encoder state, recorded materializer / params / settings of every part, the caller-visible
+            drop set and the number of materializer calls. Every evaluation / encoder result the model is given is
+            keyed by the arguments the implementation's call was observed with.
+* `fault`   one materializer OBJECT: a multi-part call that raises, then a valid multi-part call; reference = new object.
+* `edit`    `result.model_spec.subset(formula)` (valid selections and structural mismatches) / `.differentiate(var)`,
+            then a build of the derived specs.
 
 Oracle (implementation only, never looks at the model): matrices, specs and formula have the same
 nested shape (same keys / tuple lengths at every level); every leaf has the same kept rows (pandas
@@ -30,6 +42,11 @@ decides between joint and per-spec generation): `result.model_spec.get_model_mat
 caller's set supplied again) must have the formula's shape, row-aligned parts and equal the first
 build part by part; on a second frame with a different null pattern (`data2`) they must have the
 same shape and row-aligned parts. The model's joint replay is compared with these results too.
+History streams: the composed / derived structure keeps its shape, ALL parts (materialized before or fresh, in any order,
+joint or per-spec generation) contain the same rows, the caller's rows are dropped, and on the same data each part equals
+its stand-alone build (`spec.get_model_matrix(data, drop_rows=jointDrop)`); a call after a failed call equals the call on
+a new materializer (trees, values, rows, structure, transform and encoder state, spec records); a subset part holds the
+parent part's columns of the chosen terms on the common rows; mismatching subset formulas must be refused.
 """
 from __future__ import annotations
 
@@ -53,19 +70,51 @@ REQUIRED_THEOREMS = [
     "spec_regenerates_part",
     "spec_at_path_regenerates_part",
     "specs_regenerate_jointly",
+    # histories (Model/PartsHist.lean)
+    "hist_call_shape_rows",
+    "hist_call_columns_fit_rows",
+    "fresh_parts_never_block_joint",
+    "joint_after_one_materializer",
+    "rebuilt_with_fresh_parts_is_joint",
+    "specs_parts_row_aligned",
+    "materializer_reuse_after_any_history",
+    "materializer_reuse_after_calls",
+    "specs_differentiate_spec",
+    "specs_subset_unstructured",
+    "specs_subset_spec",
+    "specs_subset_fails_iff",
+    "mixed_state_part_eq_standalone",
+    "every_user_records_encoder_state",
+    "hist_part_eq_standalone",
+    "formula_shape_preserved",
 ]
 TRUSTED = [
     "modelled, not verified: one factor evaluation (`_lookup` / `stateful_eval` / `literal_eval` + `find_nulls`) is a "
     "parameter of the model: a function of (expression, data, pooled transform state) returning values, null positions "
-    "and the transform state it writes; the harness forwards the implementation's results per distinct factor",
+    "and the transform state it writes; the harness forwards the implementation's results per distinct factor (history "
+    "streams: per (expression, pooled state) of every materializer call)",
     "modelled, not verified: the encoders (`_encode_numerical/_encode_categorical`, contrasts, `drop_rows` inside them) are "
-    "a parameter: a function of (expression, evaluated values, sorted drop list); the harness forwards the encoder results "
-    "under the joint drop list (C02's format); that they remove exactly the dropped positions is property C06, the model "
-    "only checks that every column has one entry per kept row",
+    "a parameter. Stream `parts` (eager model): a function of (expression, evaluated values, sorted drop list), both ranks "
+    "forwarded per factor. History streams (lazy model): a function of (expression, values, sorted drop list, rank, the "
+    "encoder state handed in) returning the encoded object and the encoder state afterwards; every cache miss of "
+    "`_encode_evaled_factor` is forwarded with the arguments it was observed with, the model answers only for those. "
+    "That encoders remove exactly the dropped positions is property C06; the model checks that every column has one entry "
+    "per kept row",
     "the term -> scoped terms -> columns pipeline is C02's model (`Model/Materialize.lean`), reused unchanged",
-    "not modelled: `encoder_state` bookkeeping of the specs, na_action other than 'drop', non-default pandas indexes, "
-    "materializers other than PandasMaterializer, the non-joint branch of `ModelSpecs.get_model_matrix`, whether the "
-    "caller's drop set object is updated (C06)",
+    "the nested tree of a formula is built by the MODEL from the user-level specification (`PartsHist.fromSpec`: strings "
+    "with ~ / |, tuples, keywords, later edits; `Structured` constructor and `_simplify` from C19's model) and compared with "
+    "the implementation's formula object; how a string splits into sides and parts and the terms of every part are the "
+    "parser's (C01's subject) and arrive as data",
+    "Python aliasing is not modelled: the state dictionaries inside `encoder_state` are shared by reference between specs "
+    "and the materializer's `encoder_state_cache`, the model copies values; the two coincide when encoders are idempotent on "
+    "their own state (the recorded encoder states are compared on every history case)",
+    "generated, not hand-copied: the registry of materializer classes (names, outputs and default output, for which outputs "
+    "`_combine_columns` merges equally named columns, fast-path flag, `for_data(DataFrame)`) is `Gen/Materializers.lean`, "
+    "probed on the live package by harness/translate.py on every run",
+    "not modelled: na_action other than 'drop', non-default pandas indexes, materializers other than PandasMaterializer (the "
+    "per-spec branch of `ModelSpecs.get_model_matrix` is reached through differing materializer PARAMS of the pandas class), "
+    "`context` layering, the sympy path of `differentiate` (the differentiated terms enter as a parameter: C20's subject), "
+    "`ModelSpecs._prepare_item`'s TypeError for non-spec items, repr/pretty-printing of `Structured`",
     "values are compared with relative tolerance 1e-9 when the formula contains center()/scale() (the model multiplies "
     "exact rationals, numpy multiplies floats), exactly otherwise",
 ]
@@ -76,8 +125,17 @@ ASSUMPTIONS = [
     "iteration order of the factor set and, for the contract check, again with the reversed order",
     "spec_regenerates_part assumes the replay contract of stateful transforms: evaluating a factor with the transform state "
     "recorded by the joint build reproduces the same values and nulls on the same data (property C04 owns that contract)",
-    "part_eq_standalone / spec_regenerates_part are stated for formulas (parts that carry no transform state of their own) "
-    "and, in general, under the hypothesis that the pooled state agrees with the part's own state on the part's factors",
+    "part_eq_standalone / spec_regenerates_part are stated for formulas (parts that carry no transform state of their own); "
+    "mixed_state_part_eq_standalone states the same for parts in ANY state under the hypothesis that the pooled transform state "
+    "agrees with the part's own state on the part's factors, in the eager model whose encoders do not read encoder state",
+    "the history theorems on row alignment, shape, joint/per-spec generation, object reuse and encoder-state bookkeeping hold for "
+    "EVERY encoder (also one that reads the state a spec brings along); hist_part_eq_standalone ('each part equals its stand-alone "
+    "build with the joint drop list', parts in any state, the code's lazy encoder caches) additionally assumes EncDet: the encoded "
+    "object of a factor depends on (expression, values, drop list) only, not on the encoder state handed in, nor on the rank when "
+    "one cache entry serves both ranks (C11's cache transparency). Without it the statement is false: a kernel-checked instance in "
+    "Props/C07.lean (a categorical factor shared between a materialized and a fresh part) is known finding C07-F1; the oracle checks "
+    "the clause on every history case and classify() excuses exactly that signature",
+    "specs_parts_row_aligned assumes all materializer classes see the same number of data rows (one data set)",
 ]
 RULE = (
     "parts: frames of 1-8 rows (thorough: up to 30) over numeric y,x,z,w (small integers / dyadics, nulls with p in "
@@ -88,9 +146,23 @@ RULE = (
     "x output pandas/numpy/sparse x cluster_by x caller drop set x random iteration order of the factor set x entry point "
     "(materializer.get_model_matrix / Formula.get_model_matrix / model_matrix; the last two only without a caller set); "
     "every case carries a second frame (same variables and levels, fresh values, different null pattern) for the "
-    "regeneration through result.model_spec. "
-    "non-trivial = at least two leaves and at least one null in a variable that one leaf uses and another does not; "
-    "distinct by canonical JSON"
+    "regeneration through result.model_spec; every case also rebuilds a MIXED-STATE structure (attached specs at even leaf "
+    "positions, never materialized specs at odd ones) with the joint drop set. "
+    "hist: 1-2 earlier structured builds through PandasMaterializer(df, **params) (params none / tag=1 / tag=2, so that parts "
+    "recorded by different materializer params meet), then a structure COMPOSED from parts of those results (leaf / top-level "
+    "item / whole result, as attached spec or as built matrix) and fresh parts (ModelSpec(formula), formula strings with and "
+    "without ~ and |): `result.model_spec.key = ModelSpec(...)` in place (fresh part after the materialized ones, root key "
+    "not last), new ModelSpecs / Structured with the fresh part first or last, nested tuples and keywords; built on the same "
+    "data (75%) or the second frame through ModelSpecs.get_model_matrix (on the composed object itself or after from_spec), "
+    "model_matrix, or a materializer; with/without caller drop set, with/without overrides (without: differing settings of "
+    "the parts must be refused). "
+    "fault: one materializer object, a multi-part call that raises (an encoder raises in a later part: C(v, contr.treatment('zz')); "
+    "or a factor does not evaluate), once or twice, then a valid multi-part call with another drop set; reference = new object. "
+    "edit: result.model_spec.subset(formula) with a random selection and order of each part's terms and, malformed sub-stream, "
+    "one structural mismatch (extra key, longer tuple, tuple->single, single->tuple, nested structure, foreign term, no "
+    "structure); result.model_spec.differentiate(var); the derived specs are built again. "
+    "non-trivial = parts: at least two leaves and at least one null in a variable that one leaf uses and another does not; "
+    "hist: the composition holds both a materialized and a fresh part; fault/edit: at least two leaves; distinct by canonical JSON"
 )
 
 # ----------------------------------------------------------------------------- helpers (formats shared with C02's engine)
@@ -333,6 +405,41 @@ def build_pyspec(node):
     return StructuredFormula(**d)
 
 
+def fspec_json(node, counter=None):
+    """the case structure as the model's `FSpec`: leaves numbered in `leaves_of` order"""
+    counter = [0] if counter is None else counter
+
+    def nxt():
+        counter[0] += 1
+        return counter[0] - 1
+
+    if "leaf" in node or "list" in node:
+        return {"leaf": nxt()}
+    if "str" in node:
+        return {"str": {"lhs": [nxt() for _ in node["str"]["lhs"]], "rhs": [nxt() for _ in node["str"]["rhs"]]}}
+    if "tup" in node:
+        return {"tup": [fspec_json(s, counter) for s in node["tup"]]}
+    kw = [[k, fspec_json(s, counter)] for k, s in node["kw"]]
+    if node["root"] is None:
+        return {"kw": kw}
+    root = fspec_json(node["root"], counter)
+    if node.get("rootfirst"):
+        return {"edited": root, "adds": kw}
+    return {"kw": kw + [["root", root]]}
+
+
+def erase_leaves(t):
+    if "node" in t:
+        return {"node": [[k, erase_leaves(v)] for k, v in t["node"]]}
+    if "tup" in t:
+        return {"tup": [erase_leaves(v) for v in t["tup"]]}
+    return {"leaf": 0}
+
+
+def _plain_terms(terms):
+    return sorted(sorted(t) for t in terms if t != ["1"])
+
+
 def build_formula(c):
     from formulaic import Formula
 
@@ -389,12 +496,201 @@ def gen_badname_case(rng):
     return c
 
 
+
+# ----------------------------------------------------------------------------- histories (streams `hist`, `fault`)
+#
+# hist:  (1) one or two builds of structured formulas through a materializer (their attached specs now record the
+#        materializer and its params), (2) a structured spec COMPOSED from parts of those results (as attached specs or as
+#        the built matrices) and from fresh, never materialized parts (`ModelSpec(formula=…)` assigned as a new key of
+#        `result.model_spec`, placed before/after materialized parts of a new `ModelSpecs`, or a formula string next to a
+#        built `ModelMatrix` in a `Structured`), (3) built again on the same data (or a frame with another null pattern)
+#        with and without a caller-supplied drop set through `ModelSpecs.get_model_matrix`, `model_matrix` or a
+#        materializer.
+# fault: ONE materializer object: a multi-part call that raises (during the encoding of a later part, or during factor
+#        evaluation), then a valid multi-part call on the same object; the same call on a new object is the reference.
+
+HKEYS = ["extra", "m2", "aux", "lhs", "rhs", "zz", "root"]
+FAULT_ATOMS = {"encode": "C({v}, contr.treatment('zz'))", "eval": "nosuch"}
+
+
+def _nonempty_structure(rng, shared, depth=2):
+    for _ in range(20):
+        if rng.random() < 0.6:
+            fs = gen_string(rng, shared, False)
+        else:
+            fs = gen_struct(rng, shared, depth)
+            if "leaf" in fs or "list" in fs:
+                continue
+        if leaves_of(fs) and not ("str" in fs and not fs["str"]["lhs"] and len(fs["str"]["rhs"]) == 1):
+            return fs  # at least one part, and a structured result (not a single matrix)
+    return {"str": {"lhs": [gen_leaf(rng, shared)], "rhs": [gen_leaf(rng, shared)]}}
+
+
+def gen_ctree(rng, shared, nbuilds, flavour, depth):
+    """a composition tree; flavour 'spec': every leaf is a ModelSpec (containers are ModelSpecs);
+    'mixed': built matrices, attached specs, ModelSpec objects and formula strings side by side (containers are Structured)"""
+    r = rng.random()
+    if depth <= 0 or r < 0.55:
+        q = rng.random()
+        if q < 0.45:
+            kind = rng.choice(["leaf", "leaf", "leaf", "top", "whole"])
+            ref = [rng.randrange(nbuilds), kind] + ([rng.randrange(8)] if kind != "whole" else [])
+            return {"ref": ref, "as": "spec" if flavour == "spec" else rng.choice(["spec", "matrix", "matrix"])}
+        lf = gen_leaf(rng, shared)
+        if flavour == "spec":
+            return {"fresh": lf, "as": "modelspec"}
+        if q < 0.6:
+            return {"freshstr": gen_string(rng, shared, False)}
+        return {"fresh": lf, "as": rng.choice(["modelspec", "string", "string"])}
+    if r < 0.75:
+        return {"tup": [gen_ctree(rng, shared, nbuilds, flavour, depth - 1) for _ in range(rng.choice([1, 2, 2, 3]))]}
+    keys = rng.sample(HKEYS, rng.randint(1, 3))
+    return {"kw": [[k, gen_ctree(rng, shared, nbuilds, flavour, depth - 1)] for k in keys]}
+
+
+def _ctree_leaves(t):
+    if "tup" in t:
+        return [l for s in t["tup"] for l in _ctree_leaves(s)]
+    if "kw" in t:
+        return [l for _, s in t["kw"] for l in _ctree_leaves(s)]
+    if "inplace" in t:
+        return [{"ref": [t["inplace"], "whole"], "as": "spec"}] + [l for _, s in t["adds"] for l in _ctree_leaves(s)]
+    return [t]
+
+
+def gen_hist_case(rng, tier):
+    maxrows = 8 if tier != "thorough" else 24
+    n = rng.randint(2, maxrows)
+    data = gen_data(rng, n)
+    # nulls in variables of different parts are the point: make sure at least two variables have one
+    holes = [v for v in NUMS if any(x is None for x in data["num"][v])]
+    for v in rng.sample(NUMS, 2):
+        if len(holes) >= 2:
+            break
+        if v not in holes:
+            data["num"][v][rng.randrange(n)] = None
+            holes.append(v)
+    _FULL[:] = [v for v in NUMS if all(x is not None for x in data["num"][v])]
+    shared: list[str] = []
+    output = rng.choice(["pandas", "pandas", "pandas", "numpy", "sparse"])
+    builds = []
+    nb = rng.choice([1, 2, 2])
+    tags = rng.choice([[None, None], [None, {"tag": "1"}], [{"tag": "1"}, None], [{"tag": "1"}, {"tag": "2"}],
+                       [{"tag": "1"}, {"tag": "2"}], [{"tag": "1"}, {"tag": "1"}]])
+    for b in range(nb):
+        fs = _nonempty_structure(rng, shared)
+        lv = leaves_of(fs)
+        if output != "pandas" or rng.random() < 0.3:
+            cand = [l for l in lv if "leaf" in l]
+            if cand:
+                add_rid(rng.choice(cand))
+            else:
+                lv[0]["list"].append("rid")
+        builds.append({"fs": fs, "params": tags[b],
+                       "caller": sorted(rng.sample(range(n), rng.randint(0, min(n, 2)))) if rng.random() < 0.2 else None})
+    flavour = rng.choice(["spec", "spec", "mixed"])
+    mode = rng.random()
+    if flavour == "spec" and mode < 0.4:
+        # `result.model_spec.<new key> = ModelSpec(formula=…)`: the fresh part comes AFTER the materialized ones
+        adds = [[k, gen_ctree(rng, shared, nb, "spec", 1)] for k in rng.sample(HKEYS[:5], rng.randint(1, 2))]
+        if rng.random() < 0.7:
+            adds[0][1] = {"fresh": gen_leaf(rng, shared), "as": "modelspec"}
+        compose = {"inplace": rng.randrange(nb), "adds": adds}
+    else:
+        keys = rng.sample(HKEYS, rng.randint(2, 4))
+        kw = [[k, gen_ctree(rng, shared, nb, flavour, 2)] for k in keys]
+        # one fresh and one materialized part at the top level, fresh first (control) or last
+        fresh = {"fresh": gen_leaf(rng, shared), "as": "modelspec" if flavour == "spec" else rng.choice(["modelspec", "string"])}
+        ref = {"ref": [rng.randrange(nb), rng.choice(["leaf", "top", "whole"]), rng.randrange(8)], "as": "spec" if flavour == "spec" else "matrix"}
+        if ref["ref"][1] == "whole":
+            ref["ref"] = ref["ref"][:2]
+        if rng.random() < 0.5:
+            kw[0][1], kw[-1][1] = fresh, ref
+        else:
+            kw[0][1], kw[-1][1] = ref, fresh
+        if nb == 2 and len(kw) >= 3:  # parts of BOTH earlier builds (possibly written by different materializers)
+            kw[1][1] = {"ref": [1 - ref["ref"][0], rng.choice(["leaf", "top"]), rng.randrange(8)], "as": ref["as"]}
+        compose = {"kw": kw}
+    if output != "pandas":  # the row identities of fresh parts are visible through the carried row-id column only
+        for l in _ctree_leaves(compose):
+            if "fresh" in l and rng.random() < 0.8:
+                add_rid(l["fresh"])
+    route = rng.choice(["specs", "specs", "sugar", "materializer"] + (["direct", "direct"] if flavour == "spec" else []))
+    s2 = {
+        "route": route,
+        "caller": sorted(rng.sample(range(n), rng.randint(0, min(n, 2)))) if rng.random() < 0.4 else None,
+        "ov": rng.random() < (0.85 if output != "pandas" else 0.5),
+        "data": "same" if rng.random() < 0.75 else "other",
+        "params": rng.choice([None, None, {"tag": "1"}]) if route == "materializer" else None,
+    }
+    return dict(kind="hist", data=data, data2=gen_data2(rng, data), builds=builds, compose=compose, s2=s2, flavour=flavour,
+                efr=rng.random() < 0.7, output=output, cluster=rng.random() < 0.15, order=rng.randrange(1 << 30))
+
+
+EDIT_MUTS = [None, None, None, None, "addkey", "longer", "flatten", "deepen", "unstructured", "foreign", "nest"]
+
+
+def gen_edit_case(rng, tier):
+    """`result.model_spec.subset(formula)` / `.differentiate(var)` of a structured build, then built again"""
+    maxrows = 8 if tier != "thorough" else 24
+    n = rng.randint(2, maxrows)
+    data = gen_data(rng, n)
+    _FULL[:] = [v for v in NUMS if all(x is not None for x in data["num"][v])]
+    shared: list[str] = []
+    fs = _nonempty_structure(rng, shared, depth=3)
+    output = rng.choice(["pandas", "pandas", "pandas", "numpy", "sparse"])
+    if output != "pandas":
+        for l in leaves_of(fs):
+            if "leaf" in l and rng.random() < 0.7:
+                add_rid(l)
+    op = rng.choice(["subset", "subset", "diff"])
+    return dict(kind="edit", data=data, fs=fs, efr=rng.random() < 0.7, output=output, cluster=rng.random() < 0.15,
+                order=rng.randrange(1 << 30), op=op, seed=rng.randrange(1 << 30),
+                mut=rng.choice(EDIT_MUTS) if op == "subset" else None, wrt=rng.choice(NUMS),
+                caller1=sorted(rng.sample(range(n), rng.randint(0, min(n, 2)))) if rng.random() < 0.2 else None,
+                caller=sorted(rng.sample(range(n), rng.randint(0, min(n, 2)))) if rng.random() < 0.35 else None)
+
+
+def gen_fault_case(rng, tier):
+    maxrows = 8 if tier != "thorough" else 24
+    n = rng.randint(2, maxrows)
+    data = gen_data(rng, n)
+    _FULL[:] = [v for v in NUMS if all(x is not None for x in data["num"][v])]
+    shared: list[str] = []
+    good = _nonempty_structure(rng, shared)
+    bad = _nonempty_structure(rng, shared)
+    lv = leaves_of(bad)
+    kind = rng.choice(["encode", "encode", "eval"])
+    atom = FAULT_ATOMS[kind].format(v=rng.choice(CATS))
+    tgt = lv[-1] if rng.random() < 0.7 else rng.choice(lv)   # mostly a LATER part
+    tl = tgt["leaf"] if "leaf" in tgt else tgt["list"]
+    tl.append(atom if rng.random() < 0.6 or not tl else atom + ":" + rng.choice(tl).split(":")[0])
+    output = rng.choice(["pandas", "pandas", "numpy", "sparse"])
+    if output != "pandas":
+        for fs in (good,):
+            cand = [l for l in leaves_of(fs) if "leaf" in l]
+            if cand:
+                add_rid(rng.choice(cand))
+    return dict(kind="fault", data=data, bad=bad, fs=good, fault=kind, efr=rng.random() < 0.7, output=output,
+                cluster=rng.random() < 0.15, order=rng.randrange(1 << 30),
+                caller_bad=sorted(rng.sample(range(n), rng.randint(0, min(n, 2)))) if rng.random() < 0.3 else None,
+                caller=sorted(rng.sample(range(n), rng.randint(0, min(n, 2)))) if rng.random() < 0.3 else None,
+                twice=rng.random() < 0.3)
+
+
 def cases(rng, tier):
-    n = {"quick": 320, "thorough": 4000, "search": 120}[tier]
+    n = {"quick": 320, "thorough": 2500, "search": 120}[tier]
     for _ in range(n):
         yield gen_parts_case(rng, tier)
     for _ in range(max(4, n // 40)):
         yield gen_badname_case(rng)
+    nh = {"quick": 110, "thorough": 700, "search": 120}[tier]
+    for _ in range(nh):
+        yield gen_hist_case(rng, tier)
+    for _ in range(max(10, nh // 3)):
+        yield gen_fault_case(rng, tier)
+    for _ in range(max(10, nh // 2)):
+        yield gen_edit_case(rng, tier)
 
 
 def _vars_of(lf):
@@ -403,6 +699,13 @@ def _vars_of(lf):
 
 
 def nontrivial(c):
+    if c["kind"] == "hist":
+        lv = _ctree_leaves(c["compose"])
+        return any("ref" in l for l in lv) and any("ref" not in l for l in lv)
+    if c["kind"] == "fault":
+        return len(leaves_of(c["fs"])) >= 2
+    if c["kind"] == "edit":
+        return len(leaves_of(c["fs"])) >= 2
     if c["kind"] != "parts":
         return False
     lv = leaves_of(c["fs"])
@@ -422,6 +725,13 @@ def _kind(node):
 
 
 def describe(c):
+    if c["kind"] == "hist":
+        return (f"hist,{c['flavour']},{'inplace' if 'inplace' in c['compose'] else 'new'},{c['s2']['route']},"
+                f"caller={int(c['s2']['caller'] is not None)},ov={int(c['s2']['ov'])},{c['s2']['data']}")
+    if c["kind"] == "fault":
+        return f"fault,{c['fault']},{c['output']}"
+    if c["kind"] == "edit":
+        return f"edit,{c['op']},{c['mut']},{c['output']},caller={int(c['caller'] is not None)}"
     lv = leaves_of(c["fs"])
     return f"{c['kind']},{_kind(c['fs'])},leaves={min(len(lv), 6)},{c['output']},caller={int(c['caller'] is not None)}"
 
@@ -580,6 +890,10 @@ def _kwargs(c):
 _MISSING = object()
 
 
+class _NoStructure(Exception):
+    pass
+
+
 class _Instrument:
     """Run-time wrappers (no hooks in the source tree) around three methods of PandasMaterializer for the
     duration of one call: choose the iteration order of the pooled factor SET, record what each cache miss of
@@ -663,12 +977,21 @@ def impl(c):
     from formulaic import model_matrix
     from formulaic.model_matrix import ModelMatrix
 
+    if c["kind"] == "hist":
+        return impl_hist(c)
+    if c["kind"] == "fault":
+        return impl_fault(c)
+    if c["kind"] == "edit":
+        return impl_edit(c)
     df = make_frame(c["data"])
     n = c["data"]["nrows"]
     formula = build_formula(c)
     fleaves = []
     ftree = tree_of(formula, lambda f: (fleaves.append(f), len(fleaves) - 1)[1])
     out = {"n": n, "ftree": ftree, "fterms": [terms_json(f) for f in fleaves]}
+    from formulaic import Formula as _F
+
+    out["leaf_terms"] = [terms_json(_F(render_leaf(lf) if "leaf" in lf else list(lf["list"]))) for lf in leaves_of(c["fs"])]
     try:
         m, mm, rec = joint_build(c, df, formula)
     except Exception as e:
@@ -696,6 +1019,7 @@ def impl(c):
     out["stree"] = tree_of(mm.model_spec, lambda s: (sleaves.append(s), len(sleaves) - 1)[1])
     out["leaves"] = [matrix_obs(x, c["output"]) for x in mleaves]
     out["spec_leaves"] = [{"terms": terms_json(s.formula), "structure": structure_json(s), "state": state_json(s)} for s in sleaves]
+    out["spec_enc"] = [{"structure": structure_json(s), "enc": enc_state_json(s)} for s in sleaves]
     out["factors"] = factors_json(m, c["output"], out["drop"], rec["writes"])
     # contract check of the evaluation abstraction: reversed iteration order of the factor set
     try:
@@ -738,6 +1062,34 @@ def impl(c):
         except Exception as e:
             out["jtree"] = None
             out["jreplay"] = {"error": type(e).__name__, "msg": str(e)[:160]}
+    # a MIXED-STATE structure: attached specs at the even leaf positions, never materialized specs over the same
+        # terms at the odd ones, built jointly with the joint drop set supplied
+        try:
+            from formulaic import ModelSpec
+            from formulaic.materializers import PandasMaterializer
+            from formulaic.utils.structured import Structured
+
+            if not isinstance(mm.model_spec, Structured):
+                raise _NoStructure()
+            cnt = [0]
+
+            def mix(sp):
+                i = cnt[0]
+                cnt[0] += 1
+                return sp if i % 2 == 0 else ModelSpec(formula=sp.formula, ensure_full_rank=sp.ensure_full_rank, output=sp.output,
+                                                       cluster_by=sp.cluster_by)
+
+            mixed = mm.model_spec._map(mix, as_type=type(mm.model_spec))
+            with _Instrument(c):
+                xm = PandasMaterializer(df).get_model_matrix(mixed, drop_rows=set(jd))
+            xl = []
+            out["xtree"] = tree_of(xm, lambda x: (xl.append(x), len(xl) - 1)[1])
+            out["mreplay"] = [matrix_obs(x, c["output"]) for x in xl]
+        except _NoStructure:
+            pass  # a single matrix: nothing to mix
+        except Exception as e:
+            out["xtree"] = None
+            out["mreplay"] = {"error": type(e).__name__, "msg": str(e)[:160]}
     # regeneration through the attached STRUCTURED spec object (`ModelSpecs.get_model_matrix` decides by itself
     # whether the parts are generated jointly): on the same data (the caller's set, if any, supplied again) …
     def kw():
@@ -764,6 +1116,506 @@ def impl(c):
     if c.get("data2") is not None:
         df2 = make_frame(c["data2"])
         out["regen2"] = [[name, regen(fn, df2, {})] for name, fn in routes[:2]]
+    return out
+
+
+# ----------------------------------------------------------------------------- histories: observation
+
+
+def _hkey(seed, expr):
+    import hashlib
+
+    return hashlib.sha256(f"{seed}:{expr}".encode()).hexdigest()
+
+
+def enc_state_json(spec):
+    return [[str(k), v[0].value, repr(v[1])] for k, v in spec.encoder_state.items()]
+
+
+def spec_obs(s):
+    return {
+        "terms": terms_json(s.formula),
+        "structure": structure_json(s),
+        "state": state_json(s),
+        "enc": enc_state_json(s),
+        "materializer": s.materializer,
+        "params": None if s.materializer_params is None else [[str(k), str(v)] for k, v in s.materializer_params.items()],
+        "output": s.output,
+        "efr": bool(s.ensure_full_rank),
+        "cluster": s.cluster_by.value != "none",
+        "na": s.na_action.value,
+    }
+
+
+class _Recorder:
+    """Run-time wrappers (no hooks in the source tree) around four methods of PandasMaterializer for the duration of one
+    history: every `get_model_matrix` call on every materializer object is one record — the iteration order chosen for
+    the pooled factor SET (a fixed total order on expressions derived from the case's seed), the pooled transform state
+    before the pass, what each cache miss of `_evaluate_factor` wrote, the drop list every part was built with, the
+    exception class if the call raised, and (taken when the call ends, on a copy of the caches) what the factor cache
+    and the encoders hold."""
+
+    NAMES = ("get_model_matrix", "_prepare_factor_evaluation_model_spec", "_evaluate_factor", "_build_model_matrix",
+             "_encode_evaled_factor")
+
+    def __init__(self, seed, snapshot=True):
+        self.seed, self.calls, self.snapshot, self.stack = seed, [], snapshot, {}
+
+    def __enter__(self):
+        from formulaic.materializers import PandasMaterializer as PM
+
+        me = self
+        self.saved = {n: PM.__dict__.get(n, _MISSING) for n in self.NAMES}
+        orig_gmm, orig_prepare, orig_eval, orig_build, orig_encode = (getattr(PM, n) for n in self.NAMES)
+
+        def cur(m):
+            return me.stack[id(m)][-1]
+
+        def encode(m, factor, spec, drop_rows, reduced_rank=False):
+            expr, r = factor.expr, bool(reduced_rank)
+            miss = (not factor.metadata.encoded) and expr not in m.encoded_cache and (expr, reduced_rank) not in m.encoded_cache
+            if not miss:
+                return orig_encode(m, factor, spec, drop_rows, reduced_rank=reduced_rank)
+            own = spec.encoder_state.get(expr)
+            if own is None and expr in m.encoder_state_cache:
+                own = m.encoder_state_cache[expr]
+            e = {"expr": expr, "drop": [int(i) for i in drop_rows], "r": r, "prior": None if own is None else repr(own[1])}
+            cur(m)["encs"].append(e)
+            try:
+                out = orig_encode(m, factor, spec, drop_rows, reduced_rank=reduced_rank)
+            except Exception as ex:
+                e["error"] = type(ex).__name__
+                raise
+            enc = m.encoded_cache[expr] if expr in m.encoded_cache else m.encoded_cache[(expr, reduced_rank)]
+            e["post"] = repr(spec.encoder_state[expr][1])
+            e["enc"] = _enc_dump(enc, factor)
+            return out
+
+        def gmm(m, spec, drop_rows=None, **ov):
+            rec = {"order": None, "pooled0": [], "drops": [], "writes": {}, "evalerr": None, "error": None, "output": None, "encs": [],
+                   "caller": None if drop_rows is None else sorted(int(i) for i in drop_rows),
+                   "params": [[str(k), str(v)] for k, v in m.params.items()], "factors": [], "mid": id(m)}
+            me.calls.append(rec)
+            me.stack.setdefault(id(m), []).append(rec)
+            try:
+                return orig_gmm(m, spec, drop_rows=drop_rows, **ov)
+            except Exception as e:
+                rec["error"] = type(e).__name__
+                raise
+            finally:
+                try:
+                    if me.snapshot:
+                        rec["factors"] = me.snap(m, rec)
+                finally:
+                    me.stack[id(m)].pop()
+
+        def prepare(m, model_specs):
+            factors, spec = orig_prepare(m, model_specs)
+            fl = sorted(factors, key=lambda f: _hkey(me.seed, f.expr))
+            rec = cur(m)
+            rec["order"] = [f.expr for f in fl]
+            rec["pooled0"] = [[str(k), repr(v)] for k, v in spec.transform_state.items()]
+            rec["output"] = spec.output
+            return fl, spec
+
+        def evaluate(m, factor, spec, drop_rows):
+            before = set(spec.transform_state)
+            miss = factor.expr not in m.factor_cache
+            try:
+                r = orig_eval(m, factor, spec, drop_rows)
+            except Exception as e:
+                cur(m)["evalerr"] = [factor.expr, type(e).__name__]
+                raise
+            if miss:
+                cur(m)["writes"][factor.expr] = [[str(k), repr(v)] for k, v in spec.transform_state.items() if k not in before]
+            return r
+
+        def build(m, spec, drop_rows):
+            cur(m)["drops"].append([int(i) for i in drop_rows])
+            return orig_build(m, spec, drop_rows=drop_rows)
+
+        for n, f in zip(self.NAMES, (gmm, prepare, evaluate, build, encode)):
+            setattr(PM, n, f)
+        return self
+
+    def __exit__(self, *a):
+        from formulaic.materializers import PandasMaterializer as PM
+
+        for n, v in self.saved.items():
+            if v is _MISSING:
+                delattr(PM, n)
+            else:
+                setattr(PM, n, v)
+        return False
+
+    def snap(self, m, rec):
+        """the factor table of one call: what every cache miss of `_evaluate_factor` returned"""
+        from formulaic.parser.types import Factor
+        from formulaic.utils.null_handling import find_nulls
+
+        out = []
+        for expr, ef in m.factor_cache.items():
+            md = ef.metadata
+            raw = ef.values.__wrapped__
+            fj = {"expr": expr, "present": raw is not None, "kind": md.kind.value, "spans": bool(md.spans_intercept),
+                  "nulls": sorted(int(i) for i in find_nulls(ef.values)), "writes": rec["writes"].get(expr, []),
+                  "st": rec["pooled0"], "share": expr in m.encoded_cache}
+            if md.kind is Factor.Kind.CONSTANT:
+                fj["value"] = fstr(raw)
+            out.append(fj)
+        if rec["evalerr"] is not None:
+            out.append({"expr": rec["evalerr"][0], "error": rec["evalerr"][1], "st": rec["pooled0"]})
+        return out
+
+
+def _enc_dump(enc, ef):
+    """the object `_encode_evaled_factor` holds right before the drop-field step (C02's format)"""
+    md = getattr(enc, "__formulaic_metadata__", ef.metadata)
+    if isinstance(enc, dict):
+        for v in enc.values():
+            if isinstance(v, dict):
+                raise ValueError("nested encoded dict (not modelled)")
+        cols = [[field_json(f), [fstr(x) for x in col_values(v)]] for f, v in enc.items()]
+        isdict = True
+    else:
+        cols = [[field_json(""), [fstr(x) for x in col_values(enc)]]]
+        isdict = False
+    return {"dict": isdict, "cols": cols, "spans": bool(md.spans_intercept),
+            "drop": None if md.drop_field is None else field_json(md.drop_field), "rmeta": bool(md.reduced),
+            "fmt": parse_fmt(md.format), "fmtr": parse_fmt(md.format_reduced)}
+
+
+def _spec_of(obj):
+    """built matrices -> their attached specs, keeping tuples and nesting"""
+    from formulaic.utils.structured import Structured
+
+    if isinstance(obj, Structured):
+        return obj.model_spec
+    if isinstance(obj, tuple):
+        return tuple(_spec_of(o) for o in obj)
+    return obj.model_spec
+
+
+def resolve_ref(t, results):
+    b, kind = t["ref"][0] % len(results), t["ref"][1]
+    res = results[b]
+    if kind == "whole":
+        obj = res
+    elif kind == "top":
+        items = list(res._structure.values())
+        obj = items[t["ref"][2] % len(items)]
+    else:
+        lv = list(res._flatten())
+        obj = lv[t["ref"][2] % len(lv)]
+    return _spec_of(obj) if t["as"] == "spec" else obj
+
+
+def build_cobj(t, results, flavour):
+    from formulaic import ModelSpec, ModelSpecs
+    from formulaic.utils.structured import Structured
+
+    if "ref" in t:
+        return resolve_ref(t, results)
+    if "fresh" in t:
+        txt = render_leaf(t["fresh"])
+        return ModelSpec(formula=txt) if t["as"] == "modelspec" else txt
+    if "freshstr" in t:
+        return render_string(t["freshstr"])
+    if "tup" in t:
+        return tuple(build_cobj(s, results, flavour) for s in t["tup"])
+    if "inplace" in t:
+        S = results[t["inplace"] % len(results)].model_spec
+        for i, (k, sub) in enumerate(t["adds"]):
+            if i % 2 == 0:
+                setattr(S, k, build_cobj(sub, results, flavour))  # `result.model_spec.key = …`
+            else:
+                S[k] = build_cobj(sub, results, flavour)  # `result.model_spec["key"] = …` (same storage path)
+        return S
+    cls = ModelSpecs if flavour == "spec" else Structured
+    return cls(**{k: build_cobj(sub, results, flavour) for k, sub in t["kw"]})
+
+
+def expected_tree(t, results):
+    """the nested shape the composition denotes (leaves erased), from the shapes of the earlier results"""
+    from formulaic import Formula
+
+    unit = lambda x: 0
+    if "ref" in t:
+        return tree_of(resolve_ref(dict(t, **{"as": "matrix"}), results), unit)
+    if "fresh" in t:
+        return {"leaf": 0}
+    if "freshstr" in t:
+        return tree_of(Formula(render_string(t["freshstr"])), unit)
+    if "tup" in t:
+        return {"tup": [expected_tree(s, results) for s in t["tup"]]}
+    if "inplace" in t:
+        d = dict(tree_of(results[t["inplace"] % len(results)], unit)["node"])
+        for k, sub in t["adds"]:
+            d[k] = expected_tree(sub, results)
+        return {"node": [[k, v] for k, v in d.items()]}
+    return {"node": [[k, expected_tree(sub, results)] for k, sub in t["kw"]]}
+
+
+def request_ctree(t):
+    """the composition as the model receives it: references stay symbolic (the model resolves them in ITS earlier
+    results), fresh parts arrive as parsed term lists in the nested shape the formula parser gives them"""
+    from formulaic import Formula
+
+    def fresh(txt):
+        fl = []
+        ft = tree_of(Formula(txt), lambda f: (fl.append(f), len(fl) - 1)[1])
+        return {"fresh": tree_request(ft, [terms_json(f) for f in fl])}
+
+    if "ref" in t:
+        return {"ref": t["ref"]}
+    if "fresh" in t:
+        return fresh(render_leaf(t["fresh"]))
+    if "freshstr" in t:
+        return fresh(render_string(t["freshstr"]))
+    if "tup" in t:
+        return {"tup": [request_ctree(x) for x in t["tup"]]}
+    if "inplace" in t:
+        return {"inplace": t["inplace"], "adds": [[k, request_ctree(x)] for k, x in t["adds"]]}
+    return {"kw": [[k, request_ctree(x)] for k, x in t["kw"]]}
+
+
+def _obs_result(r):
+    from formulaic.model_matrix import ModelMatrix
+
+    lv = []
+    tree = tree_of(r, lambda x: (lv.append(x), len(lv) - 1)[1])
+    return {"tree": tree, "is_matrix_leaf": [isinstance(x, ModelMatrix) for x in lv],
+            "leaves": [matrix_obs(x, x.model_spec.output) for x in lv], "specs": [spec_obs(x.model_spec) for x in lv]}
+
+
+def impl_hist(c):
+    from formulaic import ModelSpec, ModelSpecs, model_matrix
+    from formulaic.materializers import PandasMaterializer
+
+    df = make_frame(c["data"])
+    n = c["data"]["nrows"]
+    out = {"n": n, "builds": []}
+    results = []
+    with _Recorder(c["order"]) as rec:
+        # (1) the earlier builds
+        for b in c["builds"]:
+            from formulaic import Formula
+
+            formula = Formula(build_pyspec(b["fs"]))
+            fl = []
+            ftree = tree_of(formula, lambda f: (fl.append(f), len(fl) - 1)[1])
+            k0 = len(rec.calls)
+            caller = None if b["caller"] is None else set(b["caller"])
+            mm = PandasMaterializer(df, **(b["params"] or {})).get_model_matrix(formula, drop_rows=caller, **_kwargs(c))
+            results.append(mm)
+            o = _obs_result(mm)
+            o.update(ftree=ftree, fterms=[terms_json(f) for f in fl], calls=_calls_json(rec.calls[k0:]))
+            out["builds"].append(o)
+        # (2) the composed structured spec
+        out["expected_tree"] = expected_tree(c["compose"], results)
+        out["rtree"] = request_ctree(c["compose"])
+        S = build_cobj(c["compose"], results, c["flavour"])
+        s2 = c["s2"]
+        df2 = df if s2["data"] == "same" else make_frame(c["data2"])
+        ov = _kwargs(c) if s2["ov"] else {}
+        # what the composition holds, leaf by leaf (through the library's own normalisation of the container)
+        origin = ModelSpec.from_spec(S)
+        ol = []
+        out["otree"] = tree_of(origin, lambda x: (ol.append(x), len(ol) - 1)[1])
+        out["origin"] = [spec_obs(x) for x in ol]
+        # (3) build it
+        caller = None if s2["caller"] is None else set(s2["caller"])
+        k0 = len(rec.calls)
+        try:
+            if s2["route"] == "direct":  # the composed object itself, `root` keys wherever the edits left them
+                r = S.get_model_matrix(df2, context={}, drop_rows=caller, **ov)
+            elif s2["route"] == "specs":
+                r = origin.get_model_matrix(df2, context={}, drop_rows=caller, **ov)
+            elif s2["route"] == "sugar":
+                r = model_matrix(S, df2, context={}, drop_rows=caller, **ov)
+            else:
+                r = PandasMaterializer(df2, **(s2["params"] or {})).get_model_matrix(S, drop_rows=caller, **ov)
+            out["s2"] = _obs_result(r)
+        except Exception as e:
+            out["s2"] = {"error": type(e).__name__, "msg": str(e)[:200]}
+        out["s2"]["calls"] = _calls_json(rec.calls[k0:])
+        out["s2"]["caller_after"] = None if caller is None else sorted(int(i) for i in caller)
+    # references for the oracle: every part of the composition on its own
+    res = out["s2"]
+    if "error" in res:
+        alone = []
+        for sp in ol:
+            try:
+                sp.get_model_matrix(df2, context={}, drop_rows=None if s2["caller"] is None else set(s2["caller"]), **ov)
+                alone.append(None)
+            except Exception as e2:
+                alone.append(type(e2).__name__)
+        out["alone_errors"] = alone
+        return out
+    known = [lf["rows"] for lf in res["leaves"] if lf["rows"] is not None]
+    jd = sorted(set(range(n)) - set(known[0])) if known else None
+    out["joint_drop_from_rows"] = jd
+    out["standalone"] = []
+    if jd is not None:
+        for sp in ol:
+            try:
+                sm = sp.get_model_matrix(df2, context={}, drop_rows=set(jd), **ov)
+                out["standalone"].append(matrix_obs(sm, sm.model_spec.output))
+            except Exception as e:
+                out["standalone"].append({"error": type(e).__name__, "msg": str(e)[:160]})
+    return out
+
+
+def _calls_json(calls):
+    return [{k: v for k, v in r.items() if k != "mid"} for r in calls]
+
+
+def _subset_spec(c, formula):
+    """the `terms_spec` handed to `ModelSpecs.subset`: the structure of the built formula with a random selection of
+    each part's terms, then (for the malformed sub-stream) one structural mismatch"""
+    from formulaic import Formula
+    from formulaic.parser.types import Factor, Term
+    from formulaic.utils.structured import Structured
+
+    rng = random.Random(c["seed"])
+
+    def pick(f):
+        ts = [t for t in f if rng.random() < 0.6]
+        rng.shuffle(ts)
+        return ts
+
+    sub = formula._map(pick)
+    st, mut = sub._structure, c["mut"]
+    keys = list(st)
+    k = rng.choice(keys)
+    if mut == "addkey":
+        st["nokey"] = [Term([Factor("x")])] if rng.random() < 0.5 else []
+    elif mut == "longer":
+        tk = [q for q in keys if isinstance(st[q], tuple)]
+        if tk:
+            q = rng.choice(tk)
+            st[q] = st[q] + ([],)
+        else:
+            st[k] = (st[k], [])
+    elif mut == "flatten":
+        tk = [q for q in keys if isinstance(st[q], tuple)]
+        if tk:
+            st[rng.choice(tk)] = []
+        else:
+            st[k] = (st[k],)
+    elif mut == "deepen":
+        st[k] = (st[k], st[k]) if not isinstance(st[k], tuple) else (st[k],) + st[k]
+    elif mut == "nest":
+        st[k] = Structured(inner=[])
+    elif mut == "foreign":
+        lists = []
+        sub._map(lambda l: lists.append(l))
+        rng.choice(lists).append(Term([Factor("nosuch")]))
+    elif mut == "unstructured":
+        return [Term([Factor("x")])] if rng.random() < 0.5 else "x"
+    return sub
+
+
+def impl_edit(c):
+    from formulaic import Formula
+    from formulaic.materializers import PandasMaterializer
+    from formulaic.utils.structured import Structured
+
+    df = make_frame(c["data"])
+    n = c["data"]["nrows"]
+    formula = Formula(build_pyspec(c["fs"]))
+    fl = []
+    out = {"n": n, "ftree": tree_of(formula, lambda f: (fl.append(f), len(fl) - 1)[1]), "fterms": [terms_json(f) for f in fl]}
+    with _Recorder(c["order"]) as rec:
+        caller1 = None if c["caller1"] is None else set(c["caller1"])
+        mm = PandasMaterializer(df).get_model_matrix(formula, drop_rows=caller1, **_kwargs(c))
+        out["build"] = dict(_obs_result(mm), calls=_calls_json(rec.calls))
+        ms = mm.model_spec
+        k0 = len(rec.calls)
+        try:
+            if c["op"] == "subset":
+                spec = _subset_spec(c, formula)
+                sf = Formula.from_spec(spec)
+                if isinstance(sf, Structured):
+                    sl = []
+                    out["fm"] = tree_request(tree_of(sf, lambda f: (sl.append(f), len(sl) - 1)[1]), [terms_json(f) for f in sl])
+                else:
+                    out["fm"] = None
+                d = ms.subset(spec)
+            else:
+                d = ms.differentiate(c["wrt"])
+        except Exception as e:
+            out["derive"] = {"error": type(e).__name__, "msg": str(e)[:200]}
+            return out
+        dl = []
+        out["derive"] = {"tree": tree_of(d, lambda x: (dl.append(x), len(dl) - 1)[1]), "specs": [spec_obs(x) for x in dl]}
+        if c["op"] == "diff":
+            out["dterms"] = [[a, b["terms"]] for a, b in zip([terms_json(s.formula) for s in ms._flatten()], out["derive"]["specs"])]
+        caller = None if c["caller"] is None else set(c["caller"])
+        try:
+            out["s2"] = _obs_result(d.get_model_matrix(df, context={}, drop_rows=caller))
+        except Exception as e:
+            out["s2"] = {"error": type(e).__name__, "msg": str(e)[:200]}
+        out["s2"]["calls"] = _calls_json(rec.calls[k0:])
+        out["s2"]["caller_after"] = None if caller is None else sorted(int(i) for i in caller)
+    res = out["s2"]
+    if "error" in res:
+        alone = []
+        for sp in dl:
+            try:
+                sp.get_model_matrix(df, context={}, drop_rows=None if c["caller"] is None else set(c["caller"]))
+                alone.append(None)
+            except Exception as e2:
+                alone.append(type(e2).__name__)
+        out["alone_errors"] = alone
+        return out
+    known = [lf["rows"] for lf in res["leaves"] if lf["rows"] is not None]
+    jd = sorted(set(range(n)) - set(known[0])) if known else None
+    out["joint_drop_from_rows"] = jd
+    out["standalone"] = []
+    if jd is not None:
+        for sp in dl:
+            try:
+                sm = sp.get_model_matrix(df, context={}, drop_rows=set(jd))
+                out["standalone"].append(matrix_obs(sm, sm.model_spec.output))
+            except Exception as e:
+                out["standalone"].append({"error": type(e).__name__, "msg": str(e)[:160]})
+    return out
+
+
+def impl_fault(c):
+    from formulaic import Formula
+    from formulaic.materializers import PandasMaterializer
+
+    df = make_frame(c["data"])
+    n = c["data"]["nrows"]
+    bad = Formula(build_pyspec(c["bad"]))
+    good = Formula(build_pyspec(c["fs"]))
+    fl = []
+    out = {"n": n, "ftree": tree_of(good, lambda f: (fl.append(f), len(fl) - 1)[1]), "fterms": [terms_json(f) for f in fl]}
+    bl = []
+    out["btree"] = tree_of(bad, lambda f: (bl.append(f), len(bl) - 1)[1])
+    out["bterms"] = [terms_json(f) for f in bl]
+    m = PandasMaterializer(df)
+    with _Recorder(c["order"]) as rec:
+        out["first"] = []
+        for _ in range(2 if c.get("twice") else 1):
+            try:
+                m.get_model_matrix(bad, drop_rows=None if c["caller_bad"] is None else set(c["caller_bad"]), **_kwargs(c))
+                out["first"].append(None)
+            except Exception as e:
+                out["first"].append(type(e).__name__)
+        try:
+            out["second"] = _obs_result(m.get_model_matrix(good, drop_rows=None if c["caller"] is None else set(c["caller"]), **_kwargs(c)))
+        except Exception as e:
+            out["second"] = {"error": type(e).__name__, "msg": str(e)[:200]}
+        out["calls"] = _calls_json(rec.calls)
+    # the reference: the same call on a NEW materializer (same iteration order of the factor set)
+    with _Recorder(c["order"], snapshot=False):
+        try:
+            out["fresh"] = _obs_result(PandasMaterializer(df).get_model_matrix(good, drop_rows=None if c["caller"] is None else set(c["caller"]), **_kwargs(c)))
+        except Exception as e:
+            out["fresh"] = {"error": type(e).__name__, "msg": str(e)[:200]}
     return out
 
 
@@ -839,15 +1691,23 @@ def tree_request(ftree, fterms):
 def request(c, o):
     if "harness_exception" in o:
         return dict(op="noop")
+    if c["kind"] == "hist":
+        return request_hist(c, o)
+    if c["kind"] == "fault":
+        return request_fault(c, o)
+    if c["kind"] == "edit":
+        return request_edit(c, o)
     base = dict(
         op="joint",
         n=o["n"],
         caller=c["caller"] or [],
         efr=c["efr"],
         cluster=c["cluster"],
-        asdict=c["output"] == "pandas",
+        output=c["output"],
         variant="fast",
         tree=tree_request(o["ftree"], o["fterms"]),
+        fspec=fspec_json(c["fs"]),
+        fterms=o["fterms"],
     )
     if "error" in o:
         # the model is given an evaluation table in which every expression that mentions `nosuch` fails
@@ -868,6 +1728,229 @@ def request(c, o):
     return base
 
 
+def _ovj(c):
+    return {"efr": c["efr"], "cluster": c["cluster"], "output": c["output"]}
+
+
+def _pj(p):
+    return [[str(k), str(v)] for k, v in (p or {}).items()]
+
+
+def _tables(calls):
+    return {"table": [f for r in calls for f in r["factors"]], "encs": [e for r in calls for e in r["encs"]]}
+
+
+def _perm(seed, stages):
+    ex = {f["expr"] for st in stages for f in st["table"]}
+    return sorted(ex, key=lambda e: _hkey(seed, e))
+
+
+def request_hist(c, o):
+    stages = []
+    for b, ob in zip(c["builds"], o["builds"]):
+        stages.append(dict(do="build", tree=tree_request(ob["ftree"], ob["fterms"]), fspec=fspec_json(b["fs"]), fterms=ob["fterms"],
+                           cls="pandas", params=_pj(b["params"]),
+                           ov=_ovj(c), caller=b["caller"], **_tables(ob["calls"])))
+    s2 = c["s2"]
+    stages.append(dict(do="compose", ctree=o["rtree"], route="materializer" if s2["route"] == "materializer" else "specs",
+                       norm=s2["route"] in ("specs", "sugar"), cls="pandas", params=_pj(s2["params"]), ov=_ovj(c) if s2["ov"] else None, caller=s2["caller"],
+                       **_tables(o["s2"]["calls"])))
+    return dict(op="hist", n=o["n"], perm=_perm(c["order"], stages), stages=stages)
+
+
+def request_fault(c, o):
+    calls = [dict(tree=tree_request(o["btree"], o["bterms"]), fspec=fspec_json(c["bad"]), fterms=o["bterms"], ov=_ovj(c),
+                  caller=c["caller_bad"]) for _ in o["first"]]
+    calls.append(dict(tree=tree_request(o["ftree"], o["fterms"]), fspec=fspec_json(c["fs"]), fterms=o["fterms"], ov=_ovj(c),
+                      caller=c["caller"]))
+    st = dict(do="calls", calls=calls, cls="pandas", params=[], **_tables(o["calls"]))
+    return dict(op="hist", n=o["n"], perm=_perm(c["order"], [st]), stages=[st])
+
+
+def request_edit(c, o):
+    st1 = dict(do="build", tree=tree_request(o["ftree"], o["fterms"]), fspec=fspec_json(c["fs"]), fterms=o["fterms"], cls="pandas",
+               params=[], ov=_ovj(c), caller=c["caller1"],
+               **_tables(o["build"]["calls"]))
+    calls2 = o.get("s2", {}).get("calls", [])
+    st2 = dict(do="derive", op=c["op"], fm=o.get("fm"), dterms=o.get("dterms", []), caller=c["caller"], **_tables(calls2))
+    st2["from"] = 0
+    return dict(op="hist", n=o["n"], perm=_perm(c["order"], [st1, st2]), stages=[st1, st2])
+
+
+def agree_edit(c, o, m):
+    tol = "center(" in str(c) or "scale(" in str(c)
+    if "error" in m:
+        return "model: " + str(m["error"])
+    w = _agree_result(m["stages"][0], o["build"], tol, "first build")
+    if w:
+        return w
+    ms = m["stages"][1]
+    md, od = ms["derive"], o["derive"]
+    if "error" in md or "error" in od:
+        if md.get("error") != od.get("error"):
+            return f"{c['op']}: impl {od.get('error', 'no error')} ({od.get('msg', '')}) vs model {md.get('error', 'no error')}"
+        return None
+    if md["tree"] != od["tree"]:
+        return f"{c['op']}: derived spec tree: model {md['tree']} vs impl {od['tree']}"
+    for i, (a, b) in enumerate(zip(md["leaves"], od["specs"])):
+        for k in SPEC_FIELDS:
+            if a[k] != b[k]:
+                return f"{c['op']}: derived spec {i}, field {k}: model {a[k]} vs impl {b[k]}"
+    w = _agree_result(ms, o["s2"], tol, f"build of the {c['op']} specs")
+    if w:
+        return w
+    if "error" not in ms and o["s2"]["caller_after"] is not None and o["s2"]["caller_after"] != ms["dropset"]:
+        return f"caller's drop set after the call: model {ms['dropset']} vs impl {o['s2']['caller_after']}"
+    return None
+
+
+def oracle_edit(c, o):
+    """subset / differentiate of the attached structured spec: same shape as the formula handed in (resp. as the
+    spec), row-aligned parts, each part equal to its stand-alone build with the jointly dropped rows; a subset part
+    holds the parent part's columns of the chosen terms"""
+    b = o["build"]
+    w = _aligned(b["leaves"])
+    if w:
+        return "first build: " + w
+    d = o["derive"]
+    if "error" in d:
+        if c["op"] == "diff":
+            return f"differentiate raised {d['error']}: {d.get('msg', '')}"
+        if c["mut"] is None:
+            return f"subset with a formula of the spec's own structure and terms raised {d['error']}: {d.get('msg', '')}"
+        return None
+    if c["op"] == "subset" and c["mut"] is not None:
+        bp = set(paths_of(b["tree"]))
+        outside = [p for p in (paths_of(o["fm"]) if o.get("fm") else {})  if p not in bp]
+        if c["mut"] == "foreign" or o.get("fm") is None or outside:
+            return (f"subset accepted a formula that does not match the spec ({c['mut']}; formula parts at {outside} have no "
+                    f"counterpart): {d['tree']}")
+    want = shape_unordered(o["fm"]) if c["op"] == "subset" else shape_unordered(b["tree"])
+    if shape_unordered(d["tree"]) != want:
+        return f"{c['op']}: derived specs have shape {d['tree']}, expected {o.get('fm') if c['op'] == 'subset' else b['tree']}"
+    for i, sp in enumerate(d["specs"]):
+        if c["op"] == "subset":
+            if sp["structure"] is None or [sorted(r["term"]) for r in sp["structure"]] != [sorted(t) for t in sp["terms"]]:
+                return f"subset spec {i}: structure rows {sp['structure'] and [r['term'] for r in sp['structure']]} do not follow its terms {sp['terms']}"
+        elif sp["structure"] is not None:
+            return f"differentiated spec {i} still carries the structure recorded for the original terms"
+    s2 = o["s2"]
+    if "error" in s2:
+        if o.get("alone_errors") is not None and all(e is None for e in o["alone_errors"]) and o["alone_errors"]:
+            return f"building the {c['op']} specs raised {s2['error']} ({s2.get('msg', '')}) although every part materialises on its own"
+        return None
+    if shape_unordered(s2["tree"]) != want:
+        return f"{c['op']}: result has shape {s2['tree']}, the derived specs {d['tree']}"
+    w = _enc_check(s2["specs"], f"build of the {c['op']} specs")
+    if w:
+        return w
+    w = _aligned(s2["leaves"])
+    if w:
+        return f"build of the {c['op']} specs: {w}"
+    jd = o.get("joint_drop_from_rows")
+    if jd is None:
+        return None
+    tol = "center(" in str(c) or "scale(" in str(c)
+    dp, rp = paths_of(d["tree"]), paths_of(s2["tree"])
+    for path, di in dp.items():
+        w = _same_matrix(s2["leaves"][rp[path]], o["standalone"][di], tol, f"{c['op']} part at {path} vs its stand-alone build with drop_rows={jd}")
+        if w:
+            return w
+    if c["op"] == "subset":
+        bp = paths_of(b["tree"])
+        for path in dp:
+            if path not in bp:
+                continue
+            par, ch = b["leaves"][bp[path]], s2["leaves"][rp[path]]
+            if par["rows"] is None or ch["rows"] is None:
+                continue
+            for nm, col in zip(ch["names"], ch["values"]):
+                if ch["names"].count(nm) > 1 or par["names"].count(nm) != 1:
+                    continue
+                pc = dict(zip(par["rows"], par["values"][par["names"].index(nm)]))
+                for r, v in zip(ch["rows"], col):
+                    if r in pc and not _val_eq(v, pc[r], tol):
+                        return f"subset part at {path}: column {nm} row {r}: {v} vs {pc[r]} in the parent part"
+            missing = [nm for nm in ch["names"] if nm not in par["names"]]
+            if missing:
+                return f"subset part at {path} has columns {missing} that the parent part does not have"
+    return None
+
+
+def _model_part_obs(ml):
+    sp = ml["spec"]
+    return {"names": [e["name"] for e in ml["columns"]], "values": [e["values"] for e in ml["columns"]], "nrows": ml["nrows"],
+            "rows": ml["rows"], "structure": sp["structure"], "state": sp["state"]}
+
+
+SPEC_FIELDS = ("terms", "structure", "state", "enc", "materializer", "params", "output", "efr", "cluster")
+
+
+def _agree_result(mo, io, tol, what):
+    """one result of the model against one observed result (trees, parts, attached specs)"""
+    if "error" in mo or "error" in io:
+        if mo.get("error") == io.get("error"):
+            return None
+        return f"{what}: impl {io.get('error', 'no error')} ({io.get('msg', '')}) vs model {mo.get('error', 'no error')}"
+    if mo["tree"] != io["tree"]:
+        return f"{what}: result tree: model {mo['tree']} vs impl {io['tree']}"
+    for i, (ml, il) in enumerate(zip(mo["leaves"], io["leaves"])):
+        w = _same_matrix(_strip_rows(_model_part_obs(ml), il), il, tol, f"{what} part {i} (model vs impl)", structure=True, state=True)
+        if w:
+            return w
+        for k in SPEC_FIELDS:
+            if ml["spec"][k] != io["specs"][i][k]:
+                return f"{what} part {i}: attached spec field {k}: model {ml['spec'][k]} vs impl {io['specs'][i][k]}"
+    return None
+
+
+def agree_hist(c, o, m):
+    tol = "center(" in str(c) or "scale(" in str(c)
+    if "error" in m:
+        return "model: " + str(m["error"])
+    st = m["stages"]
+    for i, ob in enumerate(o["builds"]):
+        w = _agree_result(st[i], ob, tol, f"earlier build {i}")
+        if w:
+            return w
+        drops = [d for r in ob["calls"] for d in r["drops"]]
+        if drops and drops[0] != st[i]["drop"]:
+            return f"earlier build {i}: drop list: model {st[i]['drop']} vs impl {drops[0]}"
+    ms, os_ = st[len(o["builds"])], o["s2"]
+    if "origin" in ms:
+        if ms["origin"]["tree"] != o["otree"]:
+            return f"composed spec tree: model {ms['origin']['tree']} vs impl {o['otree']}"
+        for i, (a, b) in enumerate(zip(ms["origin"]["leaves"], o["origin"])):
+            for k in SPEC_FIELDS:
+                if a[k] != b[k]:
+                    return f"composed spec, part {i}, field {k}: model {a[k]} vs impl {b[k]}"
+    w = _agree_result(ms, os_, tol, "composed build")
+    if w:
+        return w
+    if "error" in ms:
+        return None
+    ncalls, nleaves = len(os_["calls"]), len(os_["leaves"])
+    if c["s2"]["route"] != "materializer":
+        expect = 1 if ms["jointly"] else ms["passes"] * nleaves
+        if ncalls != expect:
+            return (f"generation strategy: the model generates {'jointly' if ms['jointly'] else 'per spec, passes=' + str(ms['passes'])} "
+                    f"({expect} materializer calls), the implementation made {ncalls}")
+    if os_["caller_after"] is not None and os_["caller_after"] != ms["dropset"]:
+        return f"caller's drop set after the call: model {ms['dropset']} vs impl {os_['caller_after']}"
+    return None
+
+
+def agree_fault(c, o, m):
+    if "error" in m:
+        return "model: " + str(m["error"])
+    calls = m["stages"][0]["calls"]
+    for i, e in enumerate(o["first"]):
+        me = calls[i].get("error")
+        if me != e:
+            return f"call {i} (expected to raise): impl {e} vs model {me}"
+    return _agree_result(calls[-1], o["second"], "center(" in str(c) or "scale(" in str(c), "call after the failed one")
+
+
 def _model_leaf_obs(ml):
     if "error" in ml:
         return ml
@@ -886,6 +1969,15 @@ def agree(c, o, m):
         return "driver: " + m["driver_error"][:300]
     if "harness_exception" in o:
         return None
+    if c["kind"] == "hist":
+        return agree_hist(c, o, m)
+    if c["kind"] == "fault":
+        return agree_fault(c, o, m)
+    if c["kind"] == "edit":
+        return agree_edit(c, o, m)
+    w = _agree_ftree(c, o, m)
+    if w:
+        return w
     if "error" in o or "error" in m:
         if o.get("error") == m.get("error"):
             return None
@@ -937,6 +2029,18 @@ def agree(c, o, m):
                 w = _same_matrix(_strip_rows(_model_leaf_obs(ms), ol), ol, tol, f"joint replay leaf {j} (model vs impl)", structure=True, state=True)
                 if w:
                     return w
+            if "mreplay" in o and "mreplay" in m:
+                if isinstance(o["mreplay"], dict) or "error" in m["mreplay"]:
+                    a, b = (o["mreplay"].get("error") if isinstance(o["mreplay"], dict) else None), m["mreplay"].get("error")
+                    if a != b:
+                        return f"mixed-state replay: impl {a} vs model {b}"
+                else:
+                    if m["mreplay"]["tree"] != o["xtree"]:
+                        return f"mixed-state replay tree: model {m['mreplay']['tree']} vs impl {o['xtree']}"
+                    for j, (ms, ol) in enumerate(zip(m["mreplay"]["leaves"], o["mreplay"])):
+                        w = _same_matrix(_strip_rows(_model_leaf_obs(ms), ol), ol, tol, f"mixed-state replay leaf {j} (model vs impl)", structure=True, state=True)
+                        if w:
+                            return w
             for name, rg in o.get("regen", []):
                 if "error" in rg:
                     return f"{name} raised {rg['error']} ({rg.get('msg', '')}), the model's joint replay did not"
@@ -954,6 +2058,23 @@ def agree(c, o, m):
     return None
 
 
+def _agree_ftree(c, o, m):
+    """the formula tree the MODEL builds from the specification against the implementation's formula object"""
+    if m.get("ftree_error"):
+        return f"formula tree: the model's constructor raised {m.get('error')}, the implementation built {o['ftree']}"
+    mt = m.get("ftree")
+    if mt is None:
+        return None
+    if erase_leaves(mt) != erase_leaves(o["ftree"]):
+        return f"formula tree: model {mt} vs impl {o['ftree']}"
+    mp, ip = paths_of(mt), paths_of(o["ftree"])
+    for path, lid in mp.items():
+        if _plain_terms(o["leaf_terms"][lid]) != _plain_terms(o["fterms"][ip[path]]):
+            return (f"formula tree: the model puts part {lid} ({o['leaf_terms'][lid]}) at {path}, the implementation has "
+                    f"{o['fterms'][ip[path]]} there")
+    return None
+
+
 def _strip_rows(mo, ol):
     if "error" in mo or "error" in ol:
         return mo
@@ -966,6 +2087,12 @@ def _strip_rows(mo, ol):
 def oracle(c, o):
     if "harness_exception" in o:
         return "harness could not run the implementation: " + o["harness_exception"]
+    if c["kind"] == "hist":
+        return oracle_hist(c, o)
+    if c["kind"] == "fault":
+        return oracle_fault(c, o)
+    if c["kind"] == "edit":
+        return oracle_edit(c, o)
     if c["kind"] == "badname":
         return None if "error" in o else "a formula naming a missing column materialised"
     if "error" in o:
@@ -984,6 +2111,9 @@ def oracle(c, o):
     for lf in o["leaves"]:
         if "shape_mismatch" in lf:
             return "matrix shape and column names disagree: " + lf["shape_mismatch"]
+    w = _enc_check(o.get("spec_enc", []), "first build")
+    if w:
+        return w
     # 2. all parts contain the same rows
     counts = {lf["nrows"] for lf in o["leaves"]}
     if len(counts) > 1:
@@ -1015,6 +2145,18 @@ def oracle(c, o):
         w = _same_matrix(ml, o["replay"][sp[path]], tol, f"part at {path} vs result.model_spec[{path}].get_model_matrix(data, drop_rows={jd})")
         if w:
             return w
+    # 4c. … and when every second one is replaced by a never materialized spec over the same terms (mixed states)
+    if "mreplay" in o:
+        if isinstance(o["mreplay"], dict):
+            return f"building attached and fresh specs together raised {o['mreplay']['error']}: {o['mreplay'].get('msg', '')}"
+        if shape_unordered(o["xtree"]) != sf:
+            return f"the mixed-state build has shape {o['xtree']}, the formula {o['ftree']}"
+        xp = paths_of(o["xtree"])
+        for path in fp:
+            w = _same_matrix(o["leaves"][mp[path]], o["mreplay"][xp[path]], tol,
+                             f"part at {path} vs the same part of a joint build of attached specs (even positions) and fresh specs (odd positions) with drop_rows={jd}")
+            if w:
+                return w
     # 4b. the attached specs regenerate their parts when they are replayed together
     if isinstance(o["jreplay"], dict):
         return f"replaying result.model_spec jointly raised {o['jreplay']['error']}: {o['jreplay'].get('msg', '')}"
@@ -1068,23 +2210,179 @@ def _oracle_regen(c, o, sf, fp, mp, tol):
     return None
 
 
+def _enc_missing(sp):
+    """scoped factors of the recorded structure for which the spec records no encoder state"""
+    if sp.get("structure") is None or "enc" not in sp:
+        return []
+    have = {k for k, _, _ in sp["enc"]}
+    need = [f for row in sp["structure"] for st in row["scoped"] for f, _ in st["factors"]]
+    return sorted({f for f in need if f not in have})
+
+
+def _enc_check(specs, what):
+    for i, sp in enumerate(specs):
+        miss = _enc_missing(sp)
+        if miss:
+            return f"{what}: the spec attached to part {i} records no encoder state for {miss} although the part encodes them"
+    return None
+
+
+def _settings(sp):
+    return (sp["output"] or "pandas", sp["efr"], sp["na"])
+
+
+def _shared_cat_exprs(o):
+    """categorical factor expressions used by two parts of the composition that bring DIFFERENT encoder state for them:
+    a part materialized before (its spec records the levels) and a fresh part (no state), or two parts recorded by
+    different earlier builds with different recorded levels"""
+    states, cats = {}, set()
+    for sp in o.get("origin", []):
+        rec = {k: (kind, st) for k, kind, st in sp["enc"]}
+        cats |= {k for k, (kind, _) in rec.items() if kind == "categorical"}
+        for e in {e for t in sp["terms"] for e in t}:
+            states.setdefault(e, set()).add(rec[e][1] if e in rec else None)
+    return {e for e, ss in states.items() if e in cats and len(ss) > 1}
+
+
+def _without(a, exclude):
+    """a matrix observable without the columns of the terms that involve one of the expressions in `exclude`"""
+    if not exclude or "error" in a or not a.get("structure"):
+        return a
+    drop = {col for row in a["structure"] if set(row["term"]) & exclude for col in row["columns"]}
+    keep = [i for i, nm in enumerate(a["names"]) if nm not in drop]
+    return dict(a, names=[a["names"][i] for i in keep], values=[a["values"][i] for i in keep] if a["values"] else [])
+
+
+def oracle_hist(c, o, exclude=None):
+    """the property on a multi-step history: the composed structure keeps its shape, all parts (materialized before or
+    fresh, in any order) contain the same rows, and each equals its stand-alone build with the jointly dropped rows"""
+    for i, b in enumerate(o["builds"]):
+        if shape_unordered(b["tree"]) != shape_unordered(b["ftree"]):
+            return f"earlier build {i}: matrices do not have the shape of the formula: {b['tree']} vs {b['ftree']}"
+        w = _aligned(b["leaves"]) or _enc_check(b["specs"], f"earlier build {i}")
+        if w:
+            return f"earlier build {i}: {w}"
+    s2 = o["s2"]
+    how = f"{c['s2']['route']} route, caller drop set {c['s2']['caller']}, {'with' if c['s2']['ov'] else 'without'} overrides"
+    if "error" in s2:
+        if not c["s2"]["ov"] and len({_settings(sp) for sp in o["origin"]}) > 1 and s2["error"] == "RuntimeError":
+            return None  # parts with different output / rank / null settings cannot be generated together: refused
+        if not o["origin"]:
+            return None
+        if exclude and s2["error"] == "FactorEncodingError":
+            return None
+        if o.get("alone_errors") is not None and all(e is None for e in o["alone_errors"]):
+            return f"building the composed spec raised {s2['error']} ({s2.get('msg', '')}) although every part materialises on its own [{how}]"
+        return None
+    se = shape_unordered(o["expected_tree"])
+    if shape_unordered(s2["tree"]) != se:
+        return f"the result does not have the shape of the composed spec: {s2['tree']} vs {o['expected_tree']} [{how}]"
+    if shape_unordered(o["otree"]) != se:
+        return f"the normalised spec does not have the shape of the composition: {o['otree']} vs {o['expected_tree']}"
+    if not all(s2["is_matrix_leaf"]):
+        return "a leaf of the result is not a ModelMatrix"
+    for lf in s2["leaves"]:
+        if "shape_mismatch" in lf:
+            return "matrix shape and column names disagree: " + lf["shape_mismatch"]
+    w = _enc_check(s2["specs"], "composed build")
+    if w:
+        return w
+    w = _aligned(s2["leaves"])
+    if w:
+        states = ["built" if sp["structure"] is not None else "fresh" for sp in o["origin"]]
+        return f"{w} [parts in _flatten order: {states}; {how}]"
+    op, rp = paths_of(o["otree"]), paths_of(s2["tree"])
+    for path, oi in op.items():
+        if s2["specs"][rp[path]]["terms"] != o["origin"][oi]["terms"]:
+            return f"part at {path} was built from terms {s2['specs'][rp[path]]['terms']}, the composition holds {o['origin'][oi]['terms']}"
+    jd = o.get("joint_drop_from_rows")
+    if jd is None or c["s2"]["data"] != "same":
+        return None
+    if c["s2"]["caller"] is not None and not set(c["s2"]["caller"]) <= set(jd):
+        return f"rows {sorted(set(c['s2']['caller']) - set(jd))} of the caller's drop set are in the output [{how}]"
+    tol = "center(" in str(c) or "scale(" in str(c)
+    for path, oi in op.items():
+        st = "built" if o["origin"][oi]["structure"] is not None else "fresh"
+        w = _same_matrix(_without(s2["leaves"][rp[path]], exclude), _without(o["standalone"][oi], exclude), tol,
+                         f"{st} part at {path} vs its stand-alone build with drop_rows={jd} [{how}]")
+        if w:
+            return w
+    return None
+
+
+def oracle_fault(c, o):
+    """a call that raised leaves nothing behind: the next call on the same materializer equals the call on a new one"""
+    if not o["first"] or any(e is None for e in o["first"]):
+        return None  # the first call did not raise: nothing to check here
+    a, b = o["second"], o["fresh"]
+    if "error" in a or "error" in b:
+        if a.get("error") != b.get("error"):
+            return (f"after a call that raised {o['first'][0]}, the same materializer answers {a.get('error', 'a result')} "
+                    f"where a new materializer answers {b.get('error', 'a result')} {a.get('msg', '')}")
+        return None
+    if a["tree"] != b["tree"]:
+        return f"after a failed call: result tree {a['tree']} vs {b['tree']} on a new materializer"
+    for i, (x, y) in enumerate(zip(a["leaves"], b["leaves"])):
+        w = _same_matrix(x, y, False, f"after a call that raised {o['first'][0]}: part {i} on the reused materializer vs a new one",
+                         structure=True, state=True)
+        if w:
+            return w
+    for i, (x, y) in enumerate(zip(a["specs"], b["specs"])):
+        if x != y:
+            return f"after a call that raised {o['first'][0]}: spec of part {i} on the reused materializer {x} vs a new one {y}"
+    w = _aligned(a["leaves"])
+    if w:
+        return "after a failed call: " + w
+    return None
+
+
 def classify(c, o, why):
+    """C07-F1: a categorical factor shared between parts that bring different encoder state for it — a part that was
+    materialized before (its spec records the levels) and a fresh part (levels taken from the data at hand), or two
+    parts recorded by different builds with different levels: the materializer's encoded-factor cache is keyed by the
+    expression only, so whichever part is built first decides the encoding of all. Signature: such a factor exists,
+    the property oracle fires, and it no longer fires when the columns of the terms that involve such a factor are
+    left out of the part-vs-stand-alone comparison (or the joint build raised FactorEncodingError from
+    `_enforce_structure` while every part builds alone)."""
+    if c.get("kind") != "hist" or "harness_exception" in o or "s2" not in o:
+        return None
+    shared = _shared_cat_exprs(o)
+    if shared and oracle_hist(c, o) is not None and oracle_hist(c, o, exclude=shared) is None:
+        return "C07-F1"
     return None
 
 
 LEVEL_TEXT = (
-    "Proof: Lean theorems (Props/C07.lean) about the executable model of get_model_matrix steps 0-3 (pooling of factors and "
-    "transform state over all parts, one memoised evaluation per distinct factor in an arbitrary iteration order, one shared "
-    "drop set, Structured._map building one matrix and one spec per leaf through C02's pipeline) show for ALL structures, "
-    "null patterns, caller drop sets and iteration orders: matrices, specs and formula have the same shape; every part has "
-    "exactly the rows outside the joint drop set (= caller's set united with the nulls of every factor of every part) and "
-    "every column has one entry per such row; each part equals the standalone build of its own terms with the joint drop "
-    "set supplied; the result does not depend on the iteration order of the factor set; replaying a part's spec with the "
-    "joint drop set regenerates the part. The model is tied to the code by a differential correspondence on every run; an "
-    "implementation-only oracle checks the four clauses of the property on the real outputs."
+    "Proof: Lean theorems (Props/C07.lean) about two executable models. (1) Model/Parts.lean — get_model_matrix steps 0-3 for "
+    "structured specs (pooling of factors and transform state over all parts, one memoised evaluation per distinct factor in an "
+    "arbitrary iteration order, one shared drop set, Structured._map building one matrix and one spec per leaf through C02's "
+    "pipeline): for ALL structures, null patterns, caller drop sets and iteration orders matrices, specs and formula have the "
+    "same shape; every part has exactly the rows outside the joint drop set (= caller's set united with the nulls of every "
+    "factor of every part), one entry per such row in every column; each part equals the standalone build of its own terms "
+    "with the joint drop set supplied — for formulas and (mixed_state_part_eq_standalone) for parts in ANY state under the "
+    "stated agreement of transform state; the result does not depend on the iteration order; replaying a part's spec, or all "
+    "specs together, regenerates the parts. (2) Model/PartsHist.lean — multi-step HISTORIES: specs with recorded structure, "
+    "transform/encoder state, materializer record and settings; from_spec overrides, _prepare_model_specs, the consistency "
+    "check, the kind guard, the encoders behind encoded_cache/encoder_state_cache AS WRITTEN (lazy, part by part), the "
+    "materializer object with its caches, ModelSpecs.get_model_matrix (joint/per-spec scan with its quirks, joint branch, "
+    "per-spec branch with the shared drop set and the second pass), ModelSpecs.subset/differentiate with the exception "
+    "classes Structured.__getitem__ really raises, composition of new structures from earlier results and fresh parts: "
+    "for every call on specs in any state shape, one sorted drop list containing the caller's rows, rows of every part, "
+    "recorded materializer; fresh parts never block joint generation and specs written by one materializer plus fresh parts "
+    "in any order are generated jointly; ModelSpecs.get_model_matrix, joint or per-spec, yields row-aligned parts and a "
+    "caller-visible drop set that is exactly the set of dropped rows; a call on a materializer object after ANY history of "
+    "calls (failed ones included) equals the call on a new object; every part records encoder state for exactly the factors "
+    "it encodes; under EncDet (encoders that do not read the encoder state handed in) each part of a call on specs in any state "
+    "equals its stand-alone build on a new materializer with the joint drop list; subset/differentiate keep the documented shape "
+    "and fail exactly when a leaf operation fails. Both models "
+    "are tied to the code by a differential correspondence on every run (streams parts, badname, hist, fault, edit); an "
+    "implementation-only oracle checks the clauses of the property on the real outputs of every case."
 )
 LEVEL_NOTE = (
-    "Trusted: Lean kernel + propext/Classical.choice/Quot.sound; the hand model of base.py get_model_matrix/_build_model_matrix "
-    "(structure reuse, _enforce_structure) validated by correspondence; factor evaluation and the encoders enter as parameters "
-    "(results forwarded per case); stateful transforms are assumed order-insensitive and replayable (checked per case)."
+    "Trusted: Lean kernel + propext/Classical.choice/Quot.sound; the hand models of base.py get_model_matrix/_build_model_matrix/"
+    "_encode_evaled_factor, model_spec.py ModelSpecs.get_model_matrix/subset/differentiate and structured.py _map/__getitem__ "
+    "validated by correspondence; factor evaluation and the encoders enter as parameters (results forwarded per case); "
+    "stateful transforms are assumed order-insensitive and replayable (checked per case); 'part = stand-alone build' for "
+    "mixed-state structures is a theorem only for encoders that ignore recorded encoder state (EncDet); for the real categorical "
+    "encoder it is false (finding C07-F1, kernel-checked witness) and observed by the oracle."
 )
